@@ -91,6 +91,10 @@ pub fn judge(specs: &[Spec], case: &Case, l: &mut Local) {
                     // number spelling and precision are judged by C06
                     return;
                 }
+                if ["many-decimals", "seven-decimals", "no-comma"].iter().any(|p| case.class.starts_with(p)) {
+                    // candidates made for the number formatting checks of C02 / C06 / C08
+                    return;
+                }
                 let a = super::c01::canon(&case.content);
                 let b = super::c01::canon(&body);
                 if a != b {
